@@ -1,4 +1,284 @@
 import NV.Model.Reply
 namespace NV.C02
-theorem placeholder : True := trivial
+open NV
+
+theorem ca_lt (p : Parser) (sec : Nat) (h : p.sec < sec) :
+    p.checkAdvance sec = (.error .notStarted, p) := by
+  simp [Parser.checkAdvance, h]
+
+theorem ca_gt (p : Parser) (sec : Nat) (h : p.sec > sec) :
+    p.checkAdvance sec = (.error .sectionDone, p) := by
+  have : ¬ p.sec < sec := by omega
+  simp [Parser.checkAdvance, h, this]
+
+theorem ca_done (p : Parser) (sec : Nat) (h : p.sec = sec) (hi : p.index = p.count sec) :
+    p.checkAdvance sec = (.error .sectionDone, { p with rhValid := false, index := 0, sec := p.sec + 1 }) := by
+  simp [Parser.checkAdvance, h, Parser.count] at *
+  simp [hi]
+
+theorem ca_ok (p : Parser) (sec : Nat) (h : p.sec = sec) (hi : p.index ≠ p.count sec) :
+    p.checkAdvance sec = (.ok (), { p with rhValid := false }) := by
+  simp [Parser.checkAdvance, h, Parser.count] at *
+  simp [hi]
+
+/-- parser invariant between steps of `query.parse` -/
+def Inv (p : Parser) : Prop :=
+  p.rhValid = false ∧ p.index ≤ p.count p.sec ∧ p.qd < 65536 ∧ p.an < 65536 ∧ p.ns < 65536 ∧ p.ar < 65536
+
+theorem count_lt (p : Parser) (h : Inv p) (s : Nat) : p.count s < 65536 := by
+  unfold Parser.count; obtain ⟨_, _, h1, h2, h3, h4⟩ := h
+  repeat' split
+  all_goals omega
+
+/-- the four possible results of `checkAdvance` -/
+theorem ca_cases (p : Parser) (sec : Nat) :
+    (p.checkAdvance sec = (.error .notStarted, p)) ∨
+    (p.checkAdvance sec = (.error .sectionDone, p) ∧ p.sec > sec) ∨
+    (p.checkAdvance sec = (.error .sectionDone, { p with rhValid := false, index := 0, sec := p.sec + 1 })
+      ∧ p.sec = sec ∧ p.index = p.count sec) ∨
+    (p.checkAdvance sec = (.ok (), { p with rhValid := false }) ∧ p.sec = sec ∧ p.index ≠ p.count sec) := by
+  by_cases h1 : p.sec < sec
+  · exact .inl (ca_lt p sec h1)
+  · by_cases h2 : p.sec > sec
+    · exact .inr (.inl ⟨ca_gt p sec h2, h2⟩)
+    · have h3 : p.sec = sec := by omega
+      by_cases h4 : p.index = p.count sec
+      · exact .inr (.inr (.inl ⟨ca_done p sec h3 h4, h3, h4⟩))
+      · exact .inr (.inr (.inr ⟨ca_ok p sec h3 h4, h3, h4⟩))
+
+theorem inv_done (p : Parser) (h : Inv p) :
+    Inv { p with rhValid := false, index := 0, sec := p.sec + 1 } := by
+  obtain ⟨h0, h1, h2, h3, h4, h5⟩ := h
+  exact ⟨rfl, Nat.zero_le _, h2, h3, h4, h5⟩
+
+/-- what one `skipX` step may do to the parser -/
+structure StepOK (sec : Nat) (step : Parser → Except PErr Unit × Parser) : Prop where
+  pres : ∀ p, Inv p → Inv (step p).2
+  ok_adv : ∀ p, Inv p → (step p).1 = .ok () →
+    p.sec = sec ∧ (step p).2.sec = sec ∧ (step p).2.index = p.index + 1 ∧
+    (step p).2.count sec = p.count sec ∧ p.index < p.count sec
+
+theorem skipQuestion_ok : StepOK 2 Parser.skipQuestion := by
+  constructor
+  · intro p h
+    unfold Parser.skipQuestion
+    rcases ca_cases p 2 with hc | ⟨hc, _⟩ | ⟨hc, _, _⟩ | ⟨hc, hs, hne⟩ <;> rw [hc] <;> dsimp only
+    · exact h
+    · exact h
+    · exact inv_done p h
+    · obtain ⟨h0, h1, h2, h3, h4, h5⟩ := h
+      split
+      · exact ⟨rfl, h1, h2, h3, h4, h5⟩
+      · refine ⟨rfl, ?_, h2, h3, h4, h5⟩
+        simp only [Parser.count] at *
+        simp [hs] at *
+        omega
+  · intro p h hok
+    unfold Parser.skipQuestion at hok ⊢
+    rcases ca_cases p 2 with hc | ⟨hc, _⟩ | ⟨hc, _, _⟩ | ⟨hc, hs, hne⟩ <;> rw [hc] at hok ⊢ <;> dsimp only at hok ⊢
+    · simp at hok
+    · simp at hok
+    · simp at hok
+    · split at hok
+      · simp at hok
+      · obtain ⟨h0, h1, _⟩ := h
+        simp [Parser.count, hs] at *
+        omega
+
+theorem skipResource_nv (p : Parser) (sec : Nat) (h : p.rhValid = false) :
+    p.skipResource sec = p.skipResourceFresh sec := by
+  simp [Parser.skipResource, h]
+
+theorem skipResource_ok (sec : Nat) : StepOK sec (fun p => p.skipResource sec) := by
+  constructor
+  · intro p h
+    have hv : p.rhValid = false := h.1
+    rw [skipResource_nv p sec hv]; unfold Parser.skipResourceFresh
+    rcases ca_cases p sec with hc | ⟨hc, _⟩ | ⟨hc, _, _⟩ | ⟨hc, hs, hne⟩ <;> rw [hc] <;> dsimp only
+    · exact h
+    · exact h
+    · exact inv_done p h
+    · obtain ⟨h0, h1, h2, h3, h4, h5⟩ := h
+      split
+      · exact ⟨rfl, h1, h2, h3, h4, h5⟩
+      · refine ⟨rfl, ?_, h2, h3, h4, h5⟩
+        subst hs
+        simp only [Parser.count] at *
+        omega
+  · intro p h hok
+    have hv : p.rhValid = false := h.1
+    rw [skipResource_nv p sec hv] at hok ⊢; unfold Parser.skipResourceFresh at hok ⊢
+    rcases ca_cases p sec with hc | ⟨hc, _⟩ | ⟨hc, _, _⟩ | ⟨hc, hs, hne⟩ <;> rw [hc] at hok ⊢ <;> dsimp only at hok ⊢
+    · simp at hok
+    · simp at hok
+    · simp at hok
+    · split at hok
+      · simp at hok
+      · obtain ⟨h0, h1, _⟩ := h
+        subst hs
+        simp [Parser.count] at *
+        omega
+
+/-- `SkipAll…` terminates: with more fuel than records left, the result is never `none`,
+and the invariant is kept. -/
+theorem skipAll_total (sec : Nat) (step : Parser → Except PErr Unit × Parser) (hs : StepOK sec step) :
+    ∀ (fuel : Nat) (p : Parser), Inv p → p.count sec - p.index < fuel →
+      ∃ r p', Parser.skipAllFuel fuel step p = some (r, p') ∧ Inv p' := by
+  intro fuel
+  induction fuel with
+  | zero => intro p _ h; omega
+  | succ n ih =>
+    intro p hinv hlt
+    unfold Parser.skipAllFuel
+    have hp := hs.pres p hinv
+    split
+    · exact ⟨_, _, rfl, by rename_i heq; rw [heq] at hp; exact hp⟩
+    · exact ⟨_, _, rfl, by rename_i heq; rw [heq] at hp; exact hp⟩
+    · rename_i p' heq
+      have hok : (step p).1 = .ok () := by rw [heq]
+      obtain ⟨h1, h2, h3, h4, h5⟩ := hs.ok_adv p hinv hok
+      rw [heq] at hp h2 h3 h4
+      apply ih p' hp
+      simp at h3 h4
+      omega
+
+theorem skipAll_fuel_enough (sec : Nat) (step : Parser → Except PErr Unit × Parser) (hs : StepOK sec step)
+    (p : Parser) (h : Inv p) :
+    ∃ r p', Parser.skipAllFuel skipFuel step p = some (r, p') ∧ Inv p' := by
+  apply skipAll_total sec step hs
+  · exact h
+  · have := count_lt p h sec
+    unfold skipFuel; omega
+
+theorem skipResource_valid (p : Parser) (sec : Nat) (h : p.rhValid = true) :
+    p.skipResource sec =
+      if p.off + p.rh.len > p.msg.length then (.error .resourceLen, p)
+      else (.ok (), { p with off := p.off + p.rh.len, rhValid := false, index := p.index + 1 }) := by
+  simp [Parser.skipResource, h]
+
+theorem rh_cases (p : Parser) (sec : Nat) (hv : p.rhValid = false) :
+    (∃ e p', p.resourceHeader sec = (.error e, p')) ∨
+    (∃ h off, p.resourceHeader sec = (.ok h, { p with rhValid := true, rh := h, off := off })
+      ∧ p.sec = sec ∧ p.index ≠ p.count sec) := by
+  simp only [Parser.resourceHeader, hv]
+  rcases ca_cases p sec with hc | ⟨hc, _⟩ | ⟨hc, _, _⟩ | ⟨hc, hs, hne⟩ <;> rw [hc] <;> simp
+  split
+  · exact .inl ⟨_, _, rfl⟩
+  · rename_i h off _
+    exact .inr ⟨⟨h, off, rfl⟩, hs, hne⟩
+
+/-- the additional-section loop of `query.parse` terminates -/
+theorem parseLoop_total : ∀ (fuel : Nat) (p : Parser) (q : Query), Inv p →
+    p.ar - p.index < fuel → parseLoop fuel p q ≠ .outOfFuel := by
+  intro fuel
+  induction fuel with
+  | zero => intro p q _ h; omega
+  | succ n ih =>
+    intro p q hinv hlt
+    have hv : p.rhValid = false := hinv.1
+    unfold parseLoop
+    rcases rh_cases p 5 hv with ⟨e, p', he⟩ | ⟨h, off, he, hs, hne⟩ <;> rw [he]
+    · cases e <;> simp
+    · dsimp only
+      split
+      · split <;> simp
+      · rw [skipResource_valid _ 5 rfl]
+        dsimp only
+        by_cases hlen : off + h.len > p.msg.length
+        · rw [if_pos hlen]; simp
+        · rw [if_neg hlen]; dsimp only
+          apply ih
+          · obtain ⟨h0, h1, h2, h3, h4, h5⟩ := hinv
+            refine ⟨rfl, ?_, h2, h3, h4, h5⟩
+            simp [Parser.count, hs] at *
+            omega
+          · obtain ⟨h0, h1, _⟩ := hinv
+            simp [Parser.count, hs] at *
+            omega
+
+theorem start_inv (msg : Bytes) (p : Parser) (h : Parser.start msg = .ok p) : Inv p ∧ p.index = 0 ∧ p.sec = 2 := by
+  unfold Parser.start at h
+  split at h
+  · simp at h
+  · simp at h
+    subst h
+    refine ⟨⟨rfl, Nat.zero_le _, rd16_lt _ _, rd16_lt _ _, rd16_lt _ _, rd16_lt _ _⟩, rfl, rfl⟩
+
+theorem question_inv (p : Parser) (h : Inv p) : Inv (p.question).2 := by
+  unfold Parser.question
+  rcases ca_cases p 2 with hc | ⟨hc, _⟩ | ⟨hc, _, _⟩ | ⟨hc, hs, hne⟩ <;> rw [hc] <;> dsimp only
+  · exact h
+  · exact h
+  · exact inv_done p h
+  · obtain ⟨h0, h1, h2, h3, h4, h5⟩ := h
+    split
+    · exact ⟨rfl, h1, h2, h3, h4, h5⟩
+    · split
+      · exact ⟨rfl, h1, h2, h3, h4, h5⟩
+      · split
+        · exact ⟨rfl, h1, h2, h3, h4, h5⟩
+        · refine ⟨rfl, ?_, h2, h3, h4, h5⟩
+          simp [Parser.count, hs] at *
+          omega
+
+/-- **C02 (termination)**: `query.parse` terminates on every byte string: the model's fuel
+(65537 per loop, more than any 16-bit record count) is never exhausted. -/
+theorem parse_total (payload : Bytes) : parse payload ≠ .outOfFuel := by
+  unfold parse parseFuel
+  dsimp only
+  split
+  · simp
+  · rename_i p hst
+    obtain ⟨hinv, _, _⟩ := start_inv payload p hst
+    have hq := question_inv p hinv
+    split
+    · simp
+    · rename_i qu p1 heq
+      rw [heq] at hq; simp at hq
+      obtain ⟨r2, p2, e2, i2⟩ := skipAll_fuel_enough 2 _ skipQuestion_ok p1 hq
+      rw [e2]; dsimp only
+      obtain ⟨r3, p3, e3, i3⟩ := skipAll_fuel_enough 3 _ (skipResource_ok 3) p2 i2
+      rw [e3]; dsimp only
+      obtain ⟨r4, p4, e4, i4⟩ := skipAll_fuel_enough 4 _ (skipResource_ok 4) p3 i3
+      rw [e4]; dsimp only
+      apply parseLoop_total _ _ _ i4
+      have := i4.2.2.2.2.2
+      unfold skipFuel; omega
+
+theorem replyRCode_len_ge (rcode : Nat) (q : Query) : 12 ≤ (replyRCode rcode q).length := by
+  unfold replyRCode
+  split <;> simp [be16]
+
+theorem resolved_len_pos (q : Query) (o : Outcome) : 1 ≤ (resolved q o).length := by
+  unfold resolved
+  split
+  · have := replyRCode_len_ge 2 q; omega
+  · split
+    · have := replyRCode_len_ge 2 q; omega
+    · rename_i b h; omega
+
+theorem udpTrunc_pos (r m : Nat) (h : 1 ≤ r) : 1 ≤ (udpTrunc r m).1 := by
+  unfold udpTrunc maxUDPSize maxDNS0Size
+  repeat' split
+  all_goals simp_all
+  all_goals omega
+
+/-- **C02 (never silence)**: whatever the payload and whatever the resolution outcome, the handler
+model emits a non-empty UDP datagram / a framed TCP message. -/
+theorem handler_replies (payload : Bytes) (o : Outcome) :
+    ∃ st q, parse payload = .done st q ∧ 1 ≤ (udpReply q o).length ∧ 3 ≤ (tcpReply q o).length := by
+  have ht := parse_total payload
+  cases hp : parse payload with
+  | outOfFuel => exact absurd hp ht
+  | done st q =>
+    refine ⟨st, q, rfl, ?_, ?_⟩
+    · unfold udpReply
+      have h1 := resolved_len_pos q o
+      have h2 := udpTrunc_pos (resolved q o).length q.msgSize h1
+      dsimp only
+      split <;> simp [List.length_take, setTC] <;> omega
+    · unfold tcpReply
+      have h1 := resolved_len_pos q o
+      simp [be16]; omega
+
 end NV.C02
